@@ -341,6 +341,11 @@ func typecheckProcesses(processes []*Process, assumedFreeNames []Name, globalEnv
 		gammaNameTypesCtx := produceNameTypesCtx(freeNames)
 		providerType := processes[i].Type
 
+		if len(processes[i].Providers) > 1 && !types.IsContractable(providerType) {
+			// Declaring several provider names duplicates the process, i.e. uses contraction
+			return fmt.Errorf("(%s) process %s is declared with several provider names, which is not allowed in %s mode", processes[i].Position.String(), processes[i].OutlineString(), providerType.Modality().FullString())
+		}
+
 		globalEnv.logf(LOGRULE, "Typechecking process %s\n", processes[i].OutlineString())
 
 		// Run the typechecker
